@@ -104,7 +104,10 @@ def run_history_oracle(inp):
     """the property itself: after construction and after every valid step the three views are coherent,
     duplicate-free and equal to the set model"""
     A, ref = U.build(inp["init"])
+    starts0 = list(A.start_vertices)          # no operation of the property touches the start list
     pb = U.coherence_problems(U.views(A), ref)
+    if "starts" in inp["init"] and starts0 != list(inp["init"]["starts"]):
+        pb.append("start-list")
     if pb:
         return {"step": 0, "op": "construct:" + inp["init"]["route"], "problems": pb, "views": U.views(A)}
     for k, op in enumerate(inp["ops"], 1):
@@ -118,6 +121,8 @@ def run_history_oracle(inp):
         pb = U.coherence_problems(vw, ref)
         if op["k"] == "copy" and U.views(orig) != before:
             pb.append("copy-changed-original")
+        if list(A.start_vertices) != starts0:
+            pb.append("start-list")
         if pb:
             return {"step": k, "op": op["k"], "problems": pb, "views": vw,
                     "elist_ir": [op.get("ir")] if op["k"] in ("adde", "addel") else None}
@@ -137,8 +142,17 @@ def run_history_oracle(inp):
         if set(A.neighbors_out(v)) != {h for (t, l, h) in E if t == v} or set(A.neighbors_in(v)) != {t for (t, l, h) in E if h == v}:
             pb.append("neighbors")
         for w in set(A.neighbors_out(v)):
-            if sorted(A.edge_labels(v, w)) != sorted(l for (t, l, h) in E if t == v and h == w) or not A.has_edge(v, w):
+            labs = sorted(l for (t, l, h) in E if t == v and h == w)
+            if sorted(A.edge_labels(v, w)) != labs or not A.has_edge(v, w):
                 pb.append("edge_labels")
+            try:                                    # edge_label: the label of the unique edge, ValueError otherwise
+                got = ("ok", A.edge_label(v, w))
+            except ValueError:
+                got = ("ValueError",)
+            if got != (("ok", labs[0]) if len(labs) == 1 else ("ValueError",)):
+                pb.append("edge_label")
+    if sorted(A.edges(), key=repr) != sorted(((t, h) for (t, l, h) in E), key=repr):
+        pb.append("edges(with_labels=False)")
     pb += U.coherence_problems(U.views(A), ref)
     if pb:
         return {"step": len(inp["ops"]), "op": "accessors", "problems": sorted(set(pb)), "views": U.views(A)}
